@@ -155,7 +155,8 @@ class C07(object):
                 "labels_base": rnd.choice([0, 0, 1, 10]),
                 # what the label buffer holds on entry: -1 everywhere, or zeros as several callers in the repository start
                 # (with labels numbered from 0 every peak then carries grain 0's label without being indexed by it)
-                "init_label": rnd.choice([-1, -1, 0]), "fight_tol_at_construction": rnd.random() < 0.4}
+                "init_label": rnd.choice([-1, -1, 0]), "fight_tol_at_construction": rnd.random() < 0.4,
+                "via_saveindexing": rnd.random() < 0.3}
         if route == "assign":
             # peaks on the detector; each grain gets a translation; UBIs are rebuilt from three of its own g-vectors
             desc["sc"] = g.uniform(0, 2048, n).tolist()
@@ -326,6 +327,7 @@ class C07(object):
                           step_cap=2000000000)
         sim.begin_run()
         viol = None
+        via_save = 0
         with contextlib.redirect_stdout(io.StringIO()):
             # the tolerance is set by plain attribute assignment after construction, as the library's own drivers do
             ix = indexing.indexer(gv=gv, hkl_tol=(tol if desc.get("fight_tol_at_construction", True) else 0.777))
@@ -334,9 +336,25 @@ class C07(object):
                     ix.ubis = [ubis[gi] for gi in pre["order"]]
                     ix.hkl_tol = pre["tol"]
                     ix.fight_over_peaks()
-                ix.ubis = [ubis[gi] for gi in desc["order"]]
+                ix.ubis = [ubis[gi].copy() for gi in desc["order"]]
                 ix.hkl_tol = tol
-                ix.fight_over_peaks()
+                if desc.get("via_saveindexing") and n and np.isfinite(gv).all() and len(desc["order"]) <= 8:
+                    # the competition as saveindexing runs it (followed by a per-grain refinement for the printed report):
+                    # labels, errors and counts must be those of the grains the indexer holds afterwards
+                    ix.ra = np.zeros(n, np.int32)
+                    ix.xp = ix.yp = ix.eta = ix.omega = ix.tth = np.zeros(n)
+                    ix.wavelength = 0.05
+                    try:
+                        ix.saveindexing(os.path.join(ctx.scratch, "c07_%d.idx" % os.getpid()))
+                    except Exception:
+                        pass    # the printed report (cell parameters, U, B of odd synthetic matrices) is not this property's
+                                # business; the competition it starts with has run
+                    ubis = list(ubis)
+                    for j_, gi_ in enumerate(desc["order"]):
+                        ubis[gi_] = np.array(ix.ubis[j_], float)
+                    via_save = 1
+                else:
+                    ix.fight_over_peaks()
             except Exception as e:
                 viol = {"class": "raises", "key": desc["entry"] + ":raises",
                         "detail": "fight_over_peaks raised %s: %s (%d grains, %d peaks, order %s)" %
